@@ -10,11 +10,14 @@ import (
 	"strings"
 
 	"verifharness/lib"
+	"verifharness/lib/httpstor"
 	"verifharness/lib/stor"
 )
 
 type Input struct {
 	Ops []stor.Op `json:"ops"`
+	// the same history through POST /ingest and GET /render?format=json on the real server
+	HTTP bool `json:"http,omitempty"`
 }
 
 var store *stor.Store
@@ -32,8 +35,25 @@ func getStore() *stor.Store {
 	return store
 }
 
+var httpSrv *httpstor.Server
+
+func getHTTP() *httpstor.Server {
+	if httpSrv == nil {
+		dir := fmt.Sprintf("/tmp/tree-b-c01http-%d", os.Getpid())
+		os.RemoveAll(dir)
+		s, err := httpstor.Open(dir)
+		if err != nil {
+			panic(err)
+		}
+		httpSrv = s
+	}
+	return httpSrv
+}
+
 func gen(r *rand.Rand, idx int, tier string) Input {
 	var in Input
+	// thorough: every third history goes through the HTTP handlers; quick: one in twelve (smoke)
+	in.HTTP = (tier == "thorough" && idx%3 == 1) || (tier != "thorough" && idx%12 == 5)
 	napps := 1 + r.Intn(2)
 	var all [][]stor.SeriesDef
 	aggs := []string{}
@@ -134,7 +154,13 @@ func gen(r *rand.Rand, idx int, tier string) Input {
 }
 
 func run(in Input) lib.Result {
-	st := getStore()
+	var st *stor.Store
+	var hs *httpstor.Server
+	if in.HTTP {
+		hs = getHTTP()
+	} else {
+		st = getStore()
+	}
 	hops := []string{}
 	nput, nget, matched2 := 0, 0, 0
 	spans := map[int64]int{}
@@ -142,11 +168,19 @@ func run(in Input) lib.Result {
 	unaligned := 0
 	crash := ""
 	for _, op := range in.Ops {
-		res := st.Apply(op)
-		if strings.HasPrefix(res.Err, "PANIC") {
-			crash = res.Err
+		if in.HTTP {
+			res := hs.Apply(op)
+			if strings.HasPrefix(res.Err, "PANIC") {
+				crash = res.Err
+			}
+			hops = append(hops, httpstor.CoqHop(op, res))
+		} else {
+			res := st.Apply(op)
+			if strings.HasPrefix(res.Err, "PANIC") {
+				crash = res.Err
+			}
+			hops = append(hops, stor.CoqHop(op, res))
 		}
-		hops = append(hops, stor.CoqHop(op, res))
 		switch op.Kind {
 		case "put":
 			nput++
@@ -169,11 +203,11 @@ func run(in Input) lib.Result {
 		}
 	}
 	return lib.Result{
-		Coq:        "{| c_ops := " + lib.List(hops) + " |}",
+		Coq:        "{| c_ops := " + lib.List(hops) + "; c_http := " + lib.Bool(in.HTTP) + " |}",
 		NonTrivial: shared >= 1 && matched2 >= 1,
 		Crash:      crash,
 		Feat: map[string]interface{}{"puts": nput, "gets": nget, "shared_100s_buckets": shared,
-			"unaligned_gets": unaligned, "wide_or_app_only_gets": matched2},
+			"unaligned_gets": unaligned, "wide_or_app_only_gets": matched2, "via_http": in.HTTP},
 	}
 }
 
@@ -181,6 +215,9 @@ func main() {
 	defer func() {
 		if store != nil {
 			store.Destroy()
+		}
+		if httpSrv != nil {
+			httpSrv.Destroy()
 		}
 	}()
 	lib.Main(lib.Harness[Input]{Prop: "C01", Quick: 300, Thorough: 4000, Gen: gen, Run: run})
